@@ -22,6 +22,7 @@ CONSTANTS Frames,          \* set of frame records
           DevFirstLine,        \* as-built (open finding): body text on the fence line gets the next line's number
           DevRestoreToTop,     \* a seeded change: after an include the source is reset to the top-level file
           DevAttribution,      \* as-built before the fix: a quote directive's attribution is reported one line early
+          DevDupShift,         \* a seeded change: every nested render shifts the recorded duplicate definitions
           DevQuoteNoLine       \* as-built before the fix (approximation): the quote directive's block_quote has no line of its own
 
 Paths == UNION {[1..n -> Frames] : n \in 0..MaxDepth}
@@ -124,9 +125,17 @@ Exit == /\ k > Len(path) + 1 /\ k <= 2 * Len(path) + 1
               /\ src' = IF f.w = "inc" THEN (IF DevRestoreToTop THEN 0 ELSE i.osrc) ELSE src
               /\ ssrc' = IF f.w = "inc" THEN i.ossrc ELSE ssrc
         /\ k' = k + 1 /\ UNCHANGED <<path, pre, leaf, inner, base, row, abs>>
-Next == EnterQuoteOrList \/ EnterDirective \/ EnterDiv \/ EnterInclude \/ Leaf \/ Exit
+(* after the whole construct, at document level: a duplicate reference definition.  Its warning is raised from   *)
+(* the token map recorded when the DOCUMENT was tokenised, at the end of the render: nested renders in between   *)
+(* must not move it                                                                                              *)
+TailDef == /\ k = 2 * Len(path) + 2
+        /\ LET line == pre + Height(path, leaf, 1) + 3             \* blank line, first definition, the duplicate
+                shift == IF DevDupShift THEN Len(SelectSeq(path, LAMBDA f : f.w # "quote" /\ f.w # "list")) ELSE 0   \* (grows with every nested render)
+            IN marks' = Append(marks, [what |-> "dupdef", m |-> line + shift, s |-> line, src |-> 0, ssrc |-> 0])
+        /\ k' = k + 1 /\ UNCHANGED <<path, pre, leaf, inner, base, row, src, abs, ssrc>>
+Next == EnterQuoteOrList \/ EnterDirective \/ EnterDiv \/ EnterInclude \/ Leaf \/ Exit \/ TailDef
 Spec == Init /\ [][Next]_vars /\ WF_vars(Next)
-Done == k = 2 * Len(path) + 2
+Done == k = 2 * Len(path) + 3
 
 (************************************ S ************************************************)
 TrueLines == \A n \in 1..Len(marks) : marks[n].m = marks[n].s /\ marks[n].src = marks[n].ssrc
